@@ -52,6 +52,8 @@ func (w *world) loginAs(c *conn, u int) {
 func scriptWorld(t *testing.T, set int) *world {
 	t.Helper()
 
+	userIDs = nil
+
 	w := newWorld(t, credSets[set], 1)
 	t.Cleanup(w.close)
 
